@@ -142,6 +142,53 @@ func init() {
 				{"one-todo-service-and-a-decorator", &Cfg{Services: []Service{{Name: "s", Todo: P(true)}}, Decorators: []Decorator{{Tag: "t", Decorator: "Dec", Args: []any{"@lost"}}}}, []string{"services"}},
 				{"nothing-missing-only-a-decorator", &Cfg{Decorators: []Decorator{{Tag: "t", Decorator: "Dec", Args: []any{1}}}}, nil},
 			}
+			// where the missing name would sort among the declared ones (before all, between each two, after all), the
+			// declared ones being of every scope, the referrer of every scope and sorting first or last, the reference direct,
+			// through a service of default scope, or in the argument of a decorator: missing is missing, nothing else
+			for _, refScope := range []*string{nil, P("shared"), P("contextual"), P("non_shared")} {
+				for _, refName := range []string{"aa_ref", "zz_ref"} {
+					for _, missing := range []string{"a_gone", "c_gone", "e_gone", "g_gone", "i_gone", "zzz_gone"} {
+						for _, via := range []string{"direct", "through-default", "decorator"} {
+							decl := []Service{{Name: "b_ctx", Constructor: P("NewT"), Scope: P("contextual")}, {Name: "d_def", Constructor: P("NewT")}, {Name: "f_shared", Constructor: P("NewT"), Scope: P("shared")}, {Name: "h_non", Constructor: P("NewT"), Scope: P("non_shared")}}
+							ref := Service{Name: refName, Constructor: P("NewT"), Scope: refScope, Args: []any{"@d_def", "@f_shared"}}
+							cfgS := &Cfg{Params: []Param{{"b_p", 1}, {"d_p", "%b_p%"}, {"f_p", "x"}}, Services: decl}
+							cfgP := &Cfg{Params: []Param{{"b_p", 1}, {"d_p", "%b_p%"}, {"f_p", "x"}}, Services: append([]Service{}, decl...)}
+							refP := ref
+							switch via {
+							case "direct":
+								ref.Args = append(ref.Args, "@"+missing)
+								refP.Fields = []KV{{"F", "<%" + missing + "%>"}}
+							case "through-default":
+								ref.Args = append(ref.Args, "@m_mid")
+								refP.Args = append(refP.Args, "@m_mid")
+								cfgS.Services = append(cfgS.Services, Service{Name: "m_mid", Constructor: P("NewT"), Calls: []Call{{Method: "Set", Args: []any{"@" + missing}}}})
+								cfgP.Services = append(cfgP.Services, Service{Name: "m_mid", Constructor: P("NewT"), Calls: []Call{{Method: "Set", Args: []any{"%" + missing + "%"}}}})
+							case "decorator":
+								ref.Tags = []Tag{{Name: "tgd"}}
+								refP.Tags = []Tag{{Name: "tgd"}}
+								cfgS.Decorators = []Decorator{{Tag: "tgd", Decorator: "Dec", Args: []any{"@" + missing}}}
+								cfgP.Decorators = []Decorator{{Tag: "tgd", Decorator: "Dec", Args: []any{"%" + missing + "%"}}}
+							}
+							cfgS.Services = append(cfgS.Services, ref)
+							cfgP.Services = append(cfgP.Services, refP)
+							sc := "unset"
+							if refScope != nil {
+								sc = *refScope
+							}
+							id := fmt.Sprintf("missing-name-position/%s/%s/%s/%s", sc, refName, missing, via)
+							sparse = append(sparse, struct {
+								id      string
+								cfg     *Cfg
+								classes []string
+							}{id + "/service", cfgS, []string{"services"}}, struct {
+								id      string
+								cfg     *Cfg
+								classes []string
+							}{id + "/parameter", cfgP, []string{"params"}})
+						}
+					}
+				}
+			}
 			for _, sp := range sparse {
 				sp := sp
 				w.Case("sparse/"+sp.id, func(c *C) {
@@ -173,6 +220,14 @@ func init() {
 							c.Violation("sparse-verdict:"+sp.id, fmt.Sprintf("%s under %v (flag set %d): every defect is of an ignored class = %v, exit %d\n%s", sp.id, flags, fi, want, br.Exit, strings.Join(ErrorLines(br.Out), "\n")), FilesMap(files), map[string]any{"flags": flags})
 						}
 						lines := ErrorLines(br.Out)
+						if strings.HasPrefix(sp.id, "missing-name-position/") {
+							for _, l := range lines {
+								if !strings.HasPrefix(l, c16prefix[sp.classes[0]]) {
+									c.Violation("sparse-foreign-diagnostic:"+sp.classes[0], fmt.Sprintf("%s under %v: the only defect is a missing %s, reported is\n%s", sp.id, flags, sp.classes[0], strings.Join(lines, "\n")), FilesMap(files), map[string]any{"flags": flags})
+									break
+								}
+							}
+						}
 						for _, cl := range sp.classes {
 							n := len(LinesWithPrefix(lines, c16prefix[cl]))
 							if ign[cl] && n > 0 {
@@ -197,9 +252,11 @@ func init() {
 						c.Distinct("all", c.ID)
 						if len(sel) == 0 {
 							w.ShapeInvarianceOK(c, c.ID, []File{{"c.yaml", cfg.YAML()}}, true, flags...)
+							w.NameInvariance(c, c.ID, cfg, flags...)
 							return
 						}
 						w.ShapeInvariance(c, c.ID, []File{{"c.yaml", cfg.YAML()}}, flags...)
+						w.NameInvariance(c, c.ID, cfg, flags...)
 					})
 				}
 			}
